@@ -207,7 +207,28 @@ func ZZ_C20_NoOptimize(sv *zzsv.T) {
 	a := sv.Int64("A")
 	e := New(src)
 	e.SetVariable("A", &object.Integer{Value: a})
-	sv.Assume(e.Prepare([]byte{NoOptimize}) == nil)
+	// NoOptimize alone, among other flag bytes (before, after, around it),
+	// given twice, and spread over several arguments
+	other := byte(sv.Byte("otherflag"))
+	sv.Assume(other != NoOptimize)
+	var perr error
+	switch sv.Choice("flags", 7) {
+	case 0:
+		perr = e.Prepare([]byte{NoOptimize})
+	case 1:
+		perr = e.Prepare([]byte{NoOptimize, other})
+	case 2:
+		perr = e.Prepare([]byte{other, NoOptimize})
+	case 3:
+		perr = e.Prepare([]byte{other, NoOptimize, other})
+	case 4:
+		perr = e.Prepare([]byte{NoOptimize}, []byte{other})
+	case 5:
+		perr = e.Prepare([]byte{other}, []byte{NoOptimize}, []byte{})
+	default:
+		perr = e.Prepare([]byte{NoOptimize, NoOptimize, other})
+	}
+	sv.Assume(perr == nil)
 	compiled := append(code.Instructions{}, e.instructions...)
 	var walked code.Instructions
 	werr := e.machine.WalkBytecode(func(offset int, op code.Opcode, arg interface{}) (bool, error) {
@@ -230,6 +251,13 @@ func ZZ_C20_NoOptimize(sv *zzsv.T) {
 	out, err := e.Execute(nil)
 	zzDescribe(sv, "result", out, err)
 	sv.Assert("C20.noopt.runs", err == nil)
+	// "and nothing else": the same script prepared with the optimizer gives
+	// the same result
+	f := New(src)
+	f.SetVariable("A", &object.Integer{Value: a})
+	sv.Assume(f.Prepare([]byte{other}) == nil)
+	out2, err2 := f.Execute(nil)
+	sv.Assert("C20.noopt.same_result_as_optimized", err2 == nil && err == nil && zzSameObj(sv, out, out2))
 }
 
 // ZZ_C20_Reconfigure: the front end is faithful at every moment, not only
